@@ -138,7 +138,9 @@ def judge_pair(ctx, before, after, label, rng, npoints=6, big=False):
         if rb.status != "def":
             ctx.count("points_before_" + rb.status)
             continue
-        rx = R.EXACT.evaluate(after, p)
+        # domain half: decisive only if it survives a 4u perturbation of every float-typed constant of the result
+        # (absorption while folding, e.g. 2.0 + 1e-20 -> 2.0, is "rounding of folded constants", not a rewrite defect)
+        rx = R.EXACT_WIDE_ALL.evaluate(after, p)
         if rx.status == "undef":
             ctx.violation("domain_shrunk", f"{txt}: at {S.show_point(p)} the input is defined (value in [{R.lo_float(rb.root.iv)!r}, {R.hi_float(rb.root.iv)!r}]) but the result is not ({rx.undef[0]})")
             return judged
